@@ -786,6 +786,18 @@ theorem flattened_loop_eq (fuel : Nat) (ns : Ns) (fl : List Name) (parent : PDic
   pget_flattenedLoop fuel ns fl parent hn k
 
 open Hs.NsA in
+/-- `protos` with every loop as the code writes it (`protosLoop`, what the driver runs against the library) hands out,
+in the same order and tag by tag, the dicts of the specified `protos` - for every parent with distinct keys -/
+theorem protos_loop_eq (fuel : Nat) (ns : Ns) (pd : ProtoDefs) (parent : PDict)
+    (hn : (parent.map Prod.fst).Nodup) :
+    (protosLoop fuel ns pd parent).map pget = (protos fuel ns pd parent).map pget := by
+  unfold protosLoop protos
+  rw [List.map_flatMap, List.map_flatMap]
+  congr 1
+  funext kv
+  exact protosFromDefLoop_eq fuel ns pd parent hn kv.1
+
+open Hs.NsA in
 /-- a parent none of whose tags names a def with children has no prototypes -/
 theorem protos_none (fuel : Nat) (ns : Ns) (pd : ProtoDefs) (parent : PDict)
     (h : ∀ kv, kv ∈ parent → plookup pd kv.1 = none) : protos fuel ns pd parent = [] := by
@@ -812,6 +824,10 @@ def exPd : ProtoDefs :=
                       flatten := [['e','q','u','i','p']] }),
     (['f','o','o'], { children := none, flatten := [] }) ]
 def exParent : PDict := [(['a','h','u'], 1), (['e','q','u','i','p'], 7), (['f','o','o'], 9), (['z'], 0)]
+-- the loops as written put the entries in another order (an association list is compared tag by tag: protos_loop_eq)
+example : protosLoop libFuel libX.ns exPd exParent =
+    [ [(['f','a','n'], 1), (['a','h','u'], 1), (['e','q','u','i','p'], 7)],
+      [(['e','q','u','i','p'], 7), (['d','i','s'], 3), (['a','h','u'], 1)] ] := by decide +kernel
 example : protos libFuel libX.ns exPd exParent =
     [ [(['f','a','n'], 1), (['e','q','u','i','p'], 7), (['a','h','u'], 1)],
       [(['e','q','u','i','p'], 7), (['d','i','s'], 3), (['a','h','u'], 1)] ] := by decide +kernel
